@@ -88,7 +88,7 @@ var allProbeMethods = []string{"GET", "POST", "DELETE", "PUT", "PATCH", "CONNECT
 func randomVia(r *ref.R, pattern string) Via {
 	switch r.Intn(8) {
 	case 0:
-		return Via{Kind: 1, Cut: r.Intn(len(pattern) + 1)}
+		return Via{Kind: 1, Cut: gen.Cut(r, pattern)}
 	case 1:
 		return Via{Kind: 2}
 	case 2:
@@ -661,7 +661,7 @@ func (h *hist) step() (kind string, touched []string, rejected bool) {
 		return "clean", t, false
 	default:
 		p := pick()
-		cut := r.Intn(len(p) + 1)
+		cut := gen.Cut(r, p)
 		if r.Chance(1, 6) {
 			cut = 0
 		}
